@@ -217,6 +217,19 @@ def cases_sweep(tier):
     return gen_cases
 
 
+def cases_small():
+    """Finite argument domains enumerated completely: positions 0..100, slots 0..7, on/off x boundary minutes."""
+    base = {"device_id": "0a1b2c", "key": 0x5A, "session": "f1e2d3c4", "ts": 1_718_000_123, "salt": 5}
+    out = [dict(base, kind="set_position", args={"position": p}) for p in range(101)]
+    out += [dict(base, kind="delete_schedule", args={"slot": str(sl)}) for sl in range(8)]
+    out += [dict(base, kind="control_on", args={"minutes": m}) for m in (0, 1, 2, 59, 60, 61, 255, 256, 1092, 1093, 65535, 65536,
+                                                                          1118481, 71_582_787, 71_582_788)]
+    out += [dict(base, kind="control_off", args={})]
+    out += [dict(base, kind="set_auto_shutdown", args={"seconds": sec, "micros": 0}) for sec in
+            list(range(3600, 3700, 7)) + list(range(86280, 86400, 7)) + [3600 + 60 * k for k in range(0, 1380, 37)]]
+    return out
+
+
 def subchecks(tier):
     big = tier == "thorough"
     n = 50_000 if big else 400
@@ -225,4 +238,6 @@ def subchecks(tier):
                 shards=shards) for k in C02_KINDS]
     subs += [Sub(f"reject/{w}", body_reject, strategy=strat_reject(w), n=n // 2, shards=shards) for w in REJECTS]
     subs.append(Sub("sweep/create_schedule", body_sweep, cases=cases_sweep(tier), shards=16, exhaustive=big))
+    subs.append(Sub("sweep/small-domains", lambda rep, case: body_accept(rep, case, "sweep/small-domains"), cases=cases_small,
+                    shards=8, exhaustive=True))
     return subs
